@@ -64,6 +64,13 @@ func (p *Pool[K, V]) Close() (err error) {
 	var eg errs.Group
 	for ent := p.order.head; ent != nil; ent = ent.global.next {
 		eg.Add(p.closeEntry(ent))
+
+		// unlink the entry so that a pending expiration callback does not
+		// try to remove it from whatever lists exist by then.
+		if local := p.entries[ent.key]; local != nil {
+			local.removeEntry(ent, (*entry[K, V]).localList)
+		}
+		p.order.removeEntry(ent, (*entry[K, V]).globalList)
 	}
 
 	p.entries = make(map[K]*list[K, V])
